@@ -8,6 +8,7 @@ faces) are evaluated on the implementation's output as monitors."""
 from __future__ import annotations
 
 import os
+from pathlib import Path
 from fractions import Fraction
 
 import numpy as np
@@ -71,6 +72,13 @@ def write_file(setup, path):
         U = U.astype("f4").astype(float); V = V.astype("f4").astype(float)
         setup["U"], setup["V"] = U, V
     scale = 1.0 / 8 if setup["packed"] else None
+    # an earlier file with the *other* kind of storage (the frames before the start come from it):
+    # packing is a property of each file, not of the run
+    other = Path(path).with_name("roms_a.nc")
+    lab.make_grid_forcing(other, [-640, -64], imax=IMAX, jmax=JMAX, N=N, h=setup["h"], mask=setup["mask"],
+                          u=lambda t, k, j, i: 0.5 + 0 * k, v=lambda t, k, j, i: -0.25 + 0 * k,
+                          scal=dict(temp=lambda t, k, j, i: 1.0 + 0 * k), dx=128.0, hc=setup["hc"],
+                          Cs_r=setup["Cs_r"], vtransform=setup["vt"], scale_uv=None if setup["packed"] else 1.0 / 4)
     lab.make_grid_forcing(path, [0, 640], imax=IMAX, jmax=JMAX, N=N, h=setup["h"], mask=setup["mask"],
                           u=lambda t, k, j, i: U[k, j, i], v=lambda t, k, j, i: V[k, j, i],
                           scal=dict(temp=lambda t, k, j, i: S[k, j, i]), dx=128.0, hc=setup["hc"],
@@ -107,7 +115,7 @@ def run_setup(job):
     setup = make_setup(job["seed"], linear=job["linear"], packed=job["packed"])
     out = []
     with lab.scratch() as d:
-        f = d / "roms.nc"
+        f = d / "roms_b.nc"
         write_file(setup, f)
         for sub, pts in job["subs"]:
             rec = dict(sub=sub)
@@ -117,7 +125,7 @@ def run_setup(job):
                 st = State(instance_variables=dict(temp=float))
                 P = np.array(pts, dtype=float)
                 st.append(X=P[:, 0], Y=P[:, 1], Z=P[:, 2])
-                fo = Forcing(modules=dict(time=tk, grid=grid, state=st), filename=str(f), extra_forcing=["temp"])
+                fo = Forcing(modules=dict(time=tk, grid=grid, state=st), filename=str(d / "roms_*.nc"), extra_forcing=["temp"])
                 tk.update(); fo.update()
                 u, v = fo.velocity(st.X, st.Y, st.Z, 0.0)
                 # velocity at displaced positions with the level column of the start position
